@@ -75,8 +75,17 @@ def _tmp():
     return _TMP
 
 
+TARGET_VARIANTS = [(["car", "pedestrian", "bicycle"], False), (["car", "truck", "bus"], True), (["car", "vehicle.car", "pedestrian"], False),
+                   (["BICYCLE", "motorbike", "car"], True), (["car", "pedestrian", "bicycle"], False)]
+
+
 def concrete(c):
-    d = {"evaluation_task": c["task"], "target_labels": ["car", "pedestrian"][: c["n"]], "label_prefix": "autoware", "merge_similar_labels": False}
+    # target spellings: distinct labels, labels that merge into one class, an alias of the same class (the number of target labels is the
+    # number of names given, whatever they resolve to)
+    import zlib
+
+    names, merge = TARGET_VARIANTS[zlib.crc32(json.dumps(c, sort_keys=True).encode()) % len(TARGET_VARIANTS)]
+    d = {"evaluation_task": c["task"], "target_labels": names[: c["n"]], "label_prefix": "autoware", "merge_similar_labels": merge}
     if c["mgr"] == "sensing":
         d.update({"box_scale_0m": 1.0, "box_scale_100m": 1.0, "min_points_threshold": 1})
     if c["x"]:
